@@ -7,6 +7,7 @@ from collections import Counter
 from sa.context import Context, names_in
 from sa.model import AnalysisError, FunctionInfo, dotted, parent, short
 from sa.rules.c18 import check_counters
+from sa.rules.common import passed_expr as C_passed
 
 SL = "sedpack.io.shard_file_metadata"
 TOP = "TOP"
@@ -418,28 +419,56 @@ def check_dump(ctx: Context, rep, rule: str) -> None:
         loop.iter, ast.Call) and isinstance(loop.iter.func, ast.Attribute) and \
         loop.iter.func.attr == "items" and isinstance(loop.target, ast.Tuple)
     grouped = dotted(loop.iter.func.value) if ok_loop else None
+    # the grouping may live in write_config itself or in a helper whose
+    # return value is iterated by the merge loop
+    gfn = dw
+    gvar = grouped
     gdef = None
+    src_name = "updated_infos"
     for n in dw.body_nodes():
         if isinstance(n, (ast.Assign, ast.AnnAssign)):
             t = n.targets[0] if isinstance(n, ast.Assign) else n.target
             if dotted(t) == grouped:
                 gdef = n.value
+    if isinstance(gdef, ast.Call):
+        helpers = [t for t in ctx.internal_targets(dw, gdef)
+                   if not isinstance(t.node, ast.Lambda)]
+        if len(helpers) == 1:
+            h = helpers[0]
+            rets = [x for x in h.body_nodes() if isinstance(x, ast.Return)]
+            passed = [p for p in h.params()
+                      if dotted(C_passed(gdef, h, p)) == "updated_infos"]
+            if len(rets) == 1 and isinstance(rets[0].value, ast.Name) and passed:
+                gfn, gvar, src_name = h, rets[0].value.id, passed[0]
+                gdef = None
+                for n in h.body_nodes():
+                    if isinstance(n, (ast.Assign, ast.AnnAssign)):
+                        t = n.targets[0] if isinstance(n, ast.Assign) else n.target
+                        if dotted(t) == gvar:
+                            gdef = n.value
     ok_group = isinstance(gdef, ast.Call) and ast.unparse(gdef.func).endswith(
         "defaultdict") and gdef.args and ast.unparse(gdef.args[0]) == "list"
     key_ok = False
-    fill = [c for c in dw.calls() if isinstance(c.func, ast.Attribute) and
+    fill = [c for c in gfn.calls() if isinstance(c.func, ast.Attribute) and
             c.func.attr == "append" and isinstance(c.func.value, ast.Subscript)
-            and dotted(c.func.value.value) == grouped]
+            and dotted(c.func.value.value) == gvar]
     if fill:
+        from sa.norm import canon
         key = fill[0].func.value.slice
-        kdef = None
-        for n in dw.body_nodes():
-            if isinstance(n, ast.Assign) and dotted(n.targets[0]) == dotted(key):
-                kdef = n.value
-        key_ok = kdef is not None and "file_path.parts[0]" in ast.unparse(kdef)
         floop = parent(parent(fill[0]))
-        key_ok = key_ok and isinstance(floop, ast.For) and \
-            dotted(floop.iter) == "updated_infos"
+        ktext = canon(gfn, key)
+        if isinstance(key, ast.Name) and isinstance(floop, ast.For):
+            kdefs = [n.value for n in ast.walk(floop) if isinstance(
+                n, (ast.Assign, ast.AnnAssign)) and dotted(
+                    n.targets[0] if isinstance(n, ast.Assign) else n.target)
+                     == key.id and n.value is not None]
+            if len(kdefs) == 1:
+                ktext = ast.unparse(kdefs[0])
+        key_ok = isinstance(floop, ast.For) and \
+            dotted(floop.iter) == src_name and len(fill) == 1 and \
+            dotted(fill[0].args[0]) == dotted(floop.target) and \
+            "file_path.parts[0]" in ktext and \
+            (dotted(floop.target) or "?") in ktext
     okk = ok_merge and ok_loop and ok_group and key_ok and ok_loop and \
         ast.unparse(st.targets[0].slice) == loop.target.elts[0].id and \
         dotted(ctx.arg(val, 0, "updates")) == loop.target.elts[1].id
